@@ -3466,7 +3466,7 @@ namespace gch
         size_ty count = external_range_length (first, last);
         if (InlineCapacity < count)
         {
-          set_data_ptr (unchecked_allocate (count));
+          set_data_ptr (checked_allocate (count));
           set_capacity (count);
           GCH_TRY
           {
